@@ -76,6 +76,16 @@ CHECKS = {
          "Bases: the statement families with sequences of length <= 2 (quick) / 3 (thorough), the recursion templates, expressions of size <= 1 in call-heavy contexts and a feature-dense sample with <!> and loop do. Layout group: 4 noise patterns (blank lines, comment lines, trailing comments, tab indentation) x redundant parentheses x CRLF x line breaks after ( [ , inside brackets; compared byte for byte after masking the line number of <!>. Sugar group: every call-style vector over the first 3 / 5 call sites (f(a, b), f' a, b, a -> f(b), a -> f' b) x trailing expression vs ret x loop do vs loop true do; compared after renumbering V<n>/L<n> names by first occurrence.",
          "The surface printer avoids the documented parser traps (prime calls are wrapped, unary arguments parenthesised, signatures followed by a line break). Sugar variants are compared modulo temporary numbering because the statement does not fix numbering.",
          "DESIGN.md §4 C14"),
+ "C18": ("model_checking",
+         "exhaustive enumeration of operation histories (bounded length, tiny argument domains) executed by compiled Sylt programs with std bundled, every step compared with a plain reference model (Vec / BTreeMap / Option)",
+         "Every history of up to 3 (quick) / 4 (thorough) operations - push, prepend, pop, get, set (indices 0, 1, 2, 5, -1), len, last, contains, find, filter, map, fold, and == of library Maybes against source literals - on lists of ints, strings and tuples, and of update / add, remove, get / contains(_key), len on dicts and sets with int, string and tuple keys, each starting from the empty and from a two-element container (from_list); each step prints its result, the final list is printed and every key of the domain is probed at the end. The math helpers (min, max, abs, clamp, sign, div, floor) on {-2..2} and {-1.5, 0.0, 2.5} and the Maybe helpers on Just/None are enumerated completely. Histories are batched 60 per compiled program; a batch with an error is re-run history by history.",
+         "Trusted: the Rust models; MiniLua (pairs visits the array part in index order). Numeric helper results are compared by value where the representation (1 vs 1.0) is not fixed. Printing of multi-entry dicts/sets is never compared.",
+         "DESIGN.md §4 C18"),
+ "C19": ("model_checking",
+         "exhaustive enumeration of all ordered pairs of finite value domains under every typed operator; results compared with the structural definition (reference interpreter) and with the algebraic laws computed on the observed result matrices",
+         "17 value domains (ints incl. i64 max, floats, strings, bools, tuples of arity 0-3 with int, float/int, int/str and nested elements, lists of ints / tuples / lists, a two-field blob, a blob nesting a blob, an enum with int, no and tuple payload): every ordered pair, as literals and through variables, under every operator the checker types for the domain (== != < <= > >= + - * / unary -), and int x float under < >. Each printed result is compared with RefSylt's structural definition; on the Lua results alone the laws are checked on all pairs and triples: reflexive, symmetric, transitive equality, != complementary, < / > mirrored, trichotomy, transitive order, <= iff < or ==, >= mirrored.",
+         "Trusted: RefSylt's value semantics and MiniLua. Domain/operator combinations the compiler rejects are outside the typed domain and counted.",
+         "DESIGN.md §4 C19"),
 }
 
 checks = []
